@@ -8,6 +8,10 @@ use owlchess::Board;
 
 pub fn check_pos(ctx: &mut Ctx, mp: &MPos, b: &Board) {
     queries(ctx, mp, b, "");
+    let can_castle = mp.pseudo_moves().iter().any(|m| matches!(m.kind, MKind::CastleK | MKind::CastleQ));
+    if (can_castle && ctx.cases % 4 == 0) || ctx.cases % 40 == 0 || ctx.is_replay {
+        history_walk(ctx, mp, b);
+    }
     // the same queries on boards with a history: this board after every semilegal move has been
     // applied and undone on it (as a search does), and one successor reached by a real move
     if ctx.cases % 3 == 0 || ctx.is_replay {
@@ -42,6 +46,37 @@ pub fn check_pos(ctx: &mut Ctx, mp: &MPos, b: &Board) {
             }
         }
     }
+}
+
+/// A short game played in place on ONE board object (as a chain or a search does), with all 128
+/// queries compared after every ply; starts with a castling or another special move when there is one.
+fn history_walk(ctx: &mut Ctx, mp: &MPos, b: &Board) {
+    use owlchess::moves::Make;
+    let mut board = b.clone();
+    let mut cur = mp.clone();
+    let mut path = String::new();
+    for ply in 0..14 {
+        let legal = cur.legal_moves();
+        if legal.is_empty() {
+            break;
+        }
+        let castles: Vec<MMove> = legal.iter().copied().filter(|m| matches!(m.kind, MKind::CastleK | MKind::CastleQ)).collect();
+        let m = if ply < 2 && !castles.is_empty() { *ctx.rng.pick(&castles) } else { crate::gen::pick_game_move(&mut ctx.rng, &cur, &legal) };
+        let Some(lm) = crate::conv::to_move(&m) else { break };
+        let case = format!("pos:{}|walk:{}", mfen::to_xfen(mp), path);
+        match ctx.guard("make_raw", &case, || lm.make_raw(&mut board).is_ok()) {
+            Some(true) => {}
+            _ => break,
+        }
+        cur = cur.apply(&m);
+        if crate::conv::from_raw(board.raw()) != cur {
+            break; // C03's business
+        }
+        path.push_str(&m.uci());
+        path.push(' ');
+        queries(ctx, &cur, &board, &format!("|walk:{}", path));
+    }
+    ctx.feature("in_place_history_walks");
 }
 
 fn queries(ctx: &mut Ctx, mp: &MPos, b: &Board, suffix: &str) {
